@@ -18,6 +18,9 @@ SCRIPTS = [
     dict(system="rev", dt=0.2, ts=[0.1, 0.5, 1.1], tmax=1.7, policy="on_t_sample"),
     dict(system="big", dt=0.25, ts=[0, 0.5, 1.0], policy="on_t_sample"),
     dict(system="decay", dt=125.0, ts=[0, 300.0, 900.0], policy="on_t_sample", units={"quantity": "µmol", "time": "ms"}),
+    # amounts so small that they decay into sub-normal numbers (below 2.2e-308) within a few steps: bit-identical means
+    # bit-identical there too, however the loop is driven (iterate, iterate_n, run slices)
+    dict(system="decay", dt=0.5, ts=[0, 3.0, 6.0, 9.0, 12.0], policy="on_t_sample", state=[1e-305, 3e-306, 0.0, 1e-300]),
 ]
 # gillespie: event-scale horizons so that runs stay within the reference window
 SCRIPTS_G = [
